@@ -7,101 +7,101 @@ BASE = json.load(open("/root/.vp/BASELINE.json"))
 CHECKS = {
  # id: (technique, level text, level note, design ref)
  "C01": ("runtime monitoring: boundary trace of `thailint nesting` runs over generated control-flow skeletons with ground-truth depth; exact-set, wrap+1, monotone-flip and cross-language oracles",
-         "Held on the executions observed: every generated function in py/ts/js/rs is judged against its constructed depth for every limit 1..depth+2, plus metamorphic relations; evidence lists functions, construct kinds and limits seen.",
+         "Held on the executions observed: every generated function in py/ts/js/rs is judged against its constructed depth for every limit 1..depth+2, plus metamorphic relations; evidence lists functions, construct kinds and limits seen. Round-6 additions: Python functions defined inside else / elif / except / finally / case / if / with blocks, try / except*, brace-language functions laid out on one line / two lines per line / body on one line.",
          "Trusted: the generator's abstract depth, the message regex, CPython ast / bare tree-sitter for syntax checking of generated files. else-if chains in brace languages and nested named functions are not generated (documentation silent).",
          "DESIGN.md section 4 C01"),
 
  "C06": ("runtime monitoring: process-boundary trace (exit status + stdout bytes) of the same run under --format text/json/sarif; offline checker with independent extractors, structural SARIF 2.1.0 validator, exit-code law, usage-error classes",
-         "Held on the executions observed: all 20 linter commands x 3 formats over trigger projects with zero/one/many violations, hostile names and messages, and about 110 usage-error classes (missing paths / configs, unparsable files, bad options, an invalid regex in 11 positions of a file-placement configuration x 3 carriers, out-of-domain and non-numeric thresholds per linter); evidence lists commands, record counts and classes seen.",
+         "Held on the executions observed: all 20 linter commands x 3 formats over trigger projects with zero/one/many violations, hostile names and messages, and about 110 usage-error classes (missing paths / configs, unparsable files, bad options, an invalid regex in 11 positions of a file-placement configuration x 3 carriers, out-of-domain and non-numeric thresholds per linter); evidence lists commands, record counts and classes seen. Round-6 additions: keys written without a value for every documented key (refused or treated as absent, never swallowed rule failures), configuration paths that are directories / lists / missing beside other options, console encodings latin-1 / ascii / cp1252 on the real console script.",
          "Trusted: the extractors in vlib/oracles/formats.py; text form path[:line][:column]; text not judged when a path or message contains a newline; group-level --config (application config, documented fallback to defaults) is not treated as a usage error.",
          "DESIGN.md section 4 C06"),
 
  "C07": ("runtime monitoring: sequential-vs-parallel result histories at the library and CLI boundary; schedule controller forcing seeded completion orders of the worker futures (natural orders recorded); exactly-once dispatch monitor fed by events from the forked pool workers",
-         "Held on the executions observed: worker counts 1..16, file counts on both sides of the 2 x workers fallback threshold, forced and natural completion orders, per-file and cross-file rules, invalid-configuration variant, overlapping targets, --no-recursive, empty explicit configs, Orchestrator objects with a history (an earlier run, a configuration loaded afterwards) asked through both entry points; evidence lists orders, pids and dispatch events seen.",
+         "Held on the executions observed: worker counts 1..16, file counts on both sides of the 2 x workers fallback threshold, forced and natural completion orders, per-file and cross-file rules, invalid-configuration variant, overlapping targets, --no-recursive, empty explicit configs, Orchestrator objects with a history (an earlier run, a configuration loaded afterwards) asked through both entry points; evidence lists orders, pids and dispatch events seen. Round-6 additions: an alias-bait pair of modules in every project of >= 8 files.",
          "Trusted: the sequential run as specification; fork start method (wrappers inherited by workers); completion orders are permuted in the parent after all futures finished.",
          "DESIGN.md section 4 C07"),
 
  "C10": ("runtime monitoring: boundary trace of directory / per-file / file-list CLI runs and Linter.lint calls (forked child) on generated trees; union-law and CLI==library oracles over violation multisets",
-         "Held on the executions observed: all 20 commands on generated multi-language trees, directory vs union of files (also under --parallel / --no-recursive / both), random file lists and mixed file+directory lists, CLI vs library for files, directories and cross-file rules; evidence counts each comparison kind.",
+         "Held on the executions observed: all 20 commands on generated multi-language trees, directory vs union of files (also under --parallel / --no-recursive / both), random file lists and mixed file+directory lists, CLI vs library for files, directories and cross-file rules; evidence counts each comparison kind. Round-6 additions: unparsable .py / .ts files in every project (also as library targets).",
          "Trusted: path normalisation against the working directory; the library rule name is the one each linter's docs pass to Linter.lint(rules=[...]); union laws only for per-file rules.",
          "DESIGN.md section 4 C10"),
 
  "C09": ("runtime monitoring: boundary trace of identical project content under different parent directories / working directories / target spellings; relational oracle against the reference run after mapping reported paths (also inside messages) to project-relative paths",
-         "Held on the executions observed: every built-in excluded directory name and test-marker substring as parent, fifteen spellings (dot, absolute, relative, .., sibling, file lists, --project-root, from inside sub-directories), the same under --parallel, a library walk (one process, the same relative spellings from one working directory after another, compared with fresh processes given absolute paths), per-linter ignore patterns named like possible parent directories, all 20 commands; evidence counts comparisons per parent class and spelling.",
+         "Held on the executions observed: every built-in excluded directory name and test-marker substring as parent, fifteen spellings (dot, absolute, relative, .., sibling, file lists, --project-root, from inside sub-directories), the same under --parallel, a library walk (one process, the same relative spellings from one working directory after another, compared with fresh processes given absolute paths), per-linter ignore patterns named like possible parent directories, all 20 commands; evidence counts comparisons per parent class and spelling. Round-6 additions: ignore files of their own in the directories a command is started from, findings suppressed by every directive form (incl. a suppressed duplicate block), a conditional-verbose construct.",
          "Trusted: the path normaliser; each generated project root carries a .git/ marker; the reference is '.' from inside an innocuous parent.",
          "DESIGN.md section 4 C09"),
 
  "C15": ("runtime monitoring: boundary trace of every command over trigger, polyglot (swapped-language / unsupported-type) and twin (extension case, tsx/jsx, shebang) projects and under random foreign configuration sections; rule-family, silence and relational oracles",
-         "Held on the executions observed: 20 commands x rule-id family, random valid settings of the other linters' sections (hyphen/underscore; repeated under --parallel on a padded project, including the other cross-file rule switched off), language-specific linters on other-language and unrecognised files, extension-case/tsx/jsx/shebang twins; evidence counts each relation.",
+         "Held on the executions observed: 20 commands x rule-id family, random valid settings of the other linters' sections (hyphen/underscore; repeated under --parallel on a padded project, including the other cross-file rule switched off), language-specific linters on other-language and unrecognised files, extension-case/tsx/jsx/shebang twins; evidence counts each relation. Round-6 additions: the per-rule switch of a sibling rule inside a shared section (performance) as foreign configuration.",
          "Trusted: the family table from the docs; which linters are language-specific (per-linter docs); file-placement and file-header are exempt from the unrecognised-type clause (they document non-source types).",
          "DESIGN.md section 4 C15"),
 
  "C08": ("runtime monitoring: (a) permuted-argument runs, (b) PYTHONHASHSEED sweep on the real console script, (c) scripted histories (lint/edit/delete/add/touch) on one long-lived Linter/Orchestrator checked offline against a fresh-object specification recomputed in a pristine process, (d) sys.addaudithook mutation log + before/after tree snapshots + TMPDIR/HOME residue on real processes (sequential, --parallel, both DRY storage modes)",
-         "Held on the executions observed (order and hash-seed workloads include 'crowded' projects with more call sites / occurrences / files per finding than a message lists); evidence lists permutations, seeds, history lengths and operation mix, fresh-vs-reused comparisons, audit events by kind and pids seen.",
+         "Held on the executions observed (order and hash-seed workloads include 'crowded' projects with more call sites / occurrences / files per finding than a message lists); evidence lists permutations, seeds, history lengths and operation mix, fresh-vs-reused comparisons, audit events by kind and pids seen. Round-6 additions: the one-file entry point Orchestrator.lint_file in the histories, an edited .thailintignore followed by a NEW object in the same process.",
          "Trusted: 'fresh object in a pristine forked process on the re-materialised disk state' as the specification of each call; messages compared after removing the project-root prefix.",
          "DESIGN.md section 4 C08"),
 
  "C02": ("runtime monitoring: boundary trace of `thailint magic-numbers` on generated py/ts/js/rs programs whose literal occurrences (line, value, lexical form, exemption category) are known by construction; exact-multiset, allowed_numbers delta-law and max_small_integer oracles",
-         "Held on the executions observed: ints, floats, hex/octal/binary, underscore, Rust-suffixed, BigInt and unary-minus literals in assignments, calls, returns, defaults, collections, nested scopes and multi-line calls; every documented exemption; random allowed_numbers / max_small_integer; evidence counts occurrences per language and category.",
+         "Held on the executions observed: ints, floats, hex/octal/binary, underscore, Rust-suffixed, BigInt and unary-minus literals in assignments, calls, returns, defaults, collections, nested scopes and multi-line calls; every documented exemption; random allowed_numbers / max_small_integer; evidence counts occurrences per language and category. Round-6 additions: letter case of literal prefixes and exponents, magnitudes from 1e-12 to 1e21, nested constant arithmetic (TS, Rust), Rust leading-zero decimals, production attributes that mention test, file and directory names that merely contain a test marker.",
          "Trusted: the generator's ground truth; numeric comparison of the value named in the message; '-v' with exactly one of v/-v allowed and files near the definition-module threshold are not judged.",
          "DESIGN.md section 4 C02"),
 
  "C16": ("runtime monitoring: boundary trace of `thailint srp` on generated classes/structs with known public-method count, LOC and name; exact verdict + message-content oracle under swept thresholds and per-language overrides",
-         "Held on the executions observed: Python/TS/JS classes and Rust struct+impl with public/private/dunder/constructor/property/static/class/async members, LOC padded to limit-2..limit+2 with blank and comment lines, keyword on/off and custom lists, per-language overrides in yaml/json; evidence counts classes per language and boundary deltas.",
+         "Held on the executions observed: Python/TS/JS classes and Rust struct+impl with public/private/dunder/constructor/property/static/class/async members, LOC padded to limit-2..limit+2 with blank and comment lines, keyword on/off and custom lists, per-language overrides in yaml/json; evidence counts classes per language and boundary deltas. Round-6 additions: TS classes nested in a method / as a static class-expression field, comment markers inside string fields, language-private methods (#name, private), property setters / deleters, same-named Rust structs in other modules.",
          "Trusted: renderer ground truth (public methods, non-blank non-comment LOC); constructs the documentation is silent about are not generated.",
          "DESIGN.md section 4 C16"),
 
  "C17": ("runtime monitoring: boundary trace of `thailint unwrap-abuse|clone-abuse|blocking-async` on generated Rust files with planted calls of known kind, line and context (test/async/loop/wrapper); exact (rule id, line) multiset oracle per option setting",
-         "Held on the executions observed: sync/async functions, impl methods, #[test]/#[tokio::test] mixed with other attributes and comments, #[cfg(test)] and plain modules (nested), loops of every kind, chains, look-alikes, blocking wrappers, calls inside macro arguments, std::net types imported by name, awaited async twins, risky calls as sub-expressions (arguments, conditions, scrutinees, inside awaited calls / chains / async blocks); allow_in_tests / allow_expect / detect_* swept in yaml/json with hyphen/underscore section names; evidence counts planted calls per kind and context.",
+         "Held on the executions observed: sync/async functions, impl methods, #[test]/#[tokio::test] mixed with other attributes and comments, #[cfg(test)] and plain modules (nested), loops of every kind, chains, look-alikes, blocking wrappers, calls inside macro arguments, std::net types imported by name, awaited async twins, risky calls as sub-expressions (arguments, conditions, scrutinees, inside awaited calls / chains / async blocks); allow_in_tests / allow_expect / detect_* swept in yaml/json with hyphen/underscore section names; evidence counts planted calls per kind and context. Round-6 additions: stored (not awaited) futures of the async twins, inline format arguments as later uses, turbofish calls, nested cfg negations and cfg_attr(test, ..) as production attributes.",
          "Trusted: generator ground truth; clone statements constructed to fall into exactly one documented category; constructs the documentation is silent about are not generated.",
          "DESIGN.md section 4 C17"),
 
  "C18": ("runtime monitoring: boundary trace of `thailint file-placement` under generated rule sets (inline --rules, yaml/json section hyphen/underscore, --config) over a tree with look-alike directories; reference evaluator written from the property text; invalid-regex cases must exit 2",
-         "Held on the executions observed: random rule sets over a directory/pattern alphabet (nested directory rules, overlapping allow/deny, global_deny, global_patterns) x 29 paths (4 of them symbolic links across rule boundaries), runs from the root and from a sub-directory, relative and absolute target spelling; thorough tier enumerates all directory-key pairs x 3x3 rule bodies exhaustively; evidence counts verdicts and carriers.",
+         "Held on the executions observed: random rule sets over a directory/pattern alphabet (nested directory rules, overlapping allow/deny, global_deny, global_patterns) x 29 paths (4 of them symbolic links across rule boundaries), runs from the root and from a sub-directory, relative and absolute target spelling; thorough tier enumerates all directory-key pairs x 3x3 rule bodies exhaustively; evidence counts verdicts and carriers. Round-6 additions: hidden directories and their dot-less look-alikes, a numeric directory name (YAML int key), the project root spelled absolutely through '..'.",
          "Trusted: the reference evaluator (deny over allow, most specific containing directory by path components, directory over global, re.search case-insensitive); files compared as a set.",
          "DESIGN.md section 4 C18"),
 
  "C14": ("runtime monitoring: every file of a generated tree carries planted violations (file-placement deny-all, a magic number in each source file) so the reported path set is the observable linted set; compared with a reference walker + reference matcher for the documented ignore-pattern forms",
-         "Held on the executions observed: trees with hidden directories, every built-in excluded name at any depth and as a file name, look-alikes, compiled artefacts, empty directories; pattern sets in .thailintignore / yaml ignore / both; targets '.', sub-directories, explicit (also excluded/ignored) files and mixtures; recursive and --no-recursive; evidence counts file verdicts per target kind and pattern source.",
+         "Held on the executions observed: trees with hidden directories, every built-in excluded name at any depth and as a file name, look-alikes, compiled artefacts, empty directories; pattern sets in .thailintignore / yaml ignore / both; targets '.', sub-directories, explicit (also excluded/ignored) files and mixtures; recursive and --no-recursive; evidence counts file verdicts per target kind and pattern source. Round-6 additions: '**/dir/' patterns, BOM-prefixed .thailintignore, absolute targets through '..', and a cross-file workload (dry / stringly-typed, sequential and --parallel) in which ignored and excluded files must not contribute.",
          "Trusted: the reference walker/matcher (forms dir/, *.ext, exact path, dir/**, **/*_gen.py without root-level candidates); no symlinks; no nested .git directories (they start a nested project root).",
          "DESIGN.md section 4 C14"),
 
  "C03": ("runtime monitoring: boundary trace of `thailint dry` on generated projects with planted duplicate runs of known length, multiplicity and places; offline checker with an independent normaliser for soundness (named text identical), mutuality, completeness (intersection), occurrence counts and silence on duplicate-free projects",
-         "Held on the executions observed: py/ts/js projects, runs of length W-1..W+4 and multiplicity 2-5 across files and twice in one file, different indentation, interleaved blank/comment/trailing-comment lines, suppressed occurrences, min_duplicate_lines 2-6, min_occurrences 2-4, both storage modes, '.', explicit file lists and mixed file+directory arguments; evidence counts occurrences, violations and counts checked.",
+         "Held on the executions observed: py/ts/js projects, runs of length W-1..W+4 and multiplicity 2-5 across files and twice in one file, different indentation, interleaved blank/comment/trailing-comment lines, suppressed occurrences, min_duplicate_lines 2-6, min_occurrences 2-4, both storage modes, '.', explicit file lists and mixed file+directory arguments; evidence counts occurrences, violations and counts checked. Round-6 additions: planted runs inside methods, async methods, nested-class methods, arrow-function class properties; trailing block / doc comments on planted lines.",
          "Trusted: uniqueness of filler statements by construction; the harness normaliser (string-aware, per-language comment markers; statements with the other language's marker or a marker inside a string literal are part of the strict workload); 'covered' = intersected.",
          "DESIGN.md section 4 C03"),
 
  "C04": ("runtime monitoring: base run vs variant run (one suppression directive inserted) of every linter command and of an unrelated witness command, for every cell of the matrix linter x language x directive form x rule-name spelling x placement; a scope model written from the property text predicts the variant",
-         "Held on the executions observed: 19 commands (lazy-ignores excluded as a subject), py/ts/rs files, same-line / next-line / block / file-level (lines 1,5,10 in scope, 11,40 out of scope) / .thailintignore / config ignore / per-linter ignore (exact path in the matrix; every pattern form of docs/configuration.md - exact, **/name, dir/**, **/dir/**, name_*.ext, substring, nested tests/** - for the 16 linters that document the option), spellings full id / prefix / prefix.* / alias / upper case / list / bare, negative controls (other rule, placed away); thorough tier enumerates the whole matrix; evidence counts cells ok/fail.",
+         "Held on the executions observed: 19 commands (lazy-ignores excluded as a subject), py/ts/rs files, same-line / next-line / block / file-level (lines 1,5,10 in scope, 11,40 out of scope) / .thailintignore / config ignore / per-linter ignore (exact path in the matrix; every pattern form of docs/configuration.md - exact, **/name, dir/**, **/dir/**, name_*.ext, substring, nested tests/** - for the 16 linters that document the option), spellings full id / prefix / prefix.* / alias / upper case / list / bare, negative controls (other rule, placed away); thorough tier enumerates the whole matrix; evidence counts cells ok/fail. Round-6 additions: block markers that repeat the rule name or use brackets, an ignore-next-line comment at the end of the finding's own line (each with other-rule controls).",
          "Trusted: the scope model and the rule-name matcher (vlib/props/c04.py); line numbers inside messages are masked; per-linter ignore is judged only for linters whose documentation lists the option; file-header/file-placement only with forms that do not alter their subject.",
          "DESIGN.md section 4 C04"),
  "C05": ("runtime monitoring: boundary trace of linter commands on a staircase probe project (constructs straddling every threshold value) under the same setting written through .thailint.yaml / .thailint.json / pyproject.toml / --config (command and group level) with hyphen or underscore section names; relational oracles (carrier equivalence, enabled:false silence, effect + monotonicity along sweeps, precedence decoding, top-level ignore, exit 2 for invalid values and unparsable files)",
-         "Held on the executions observed: 20 commands x enabled:false x carriers; one sweep per documented threshold / switch / list-valued key (66: every key of the option tables in docs/*-linter.md and docs/configuration.md except cqs, dry.filters and dry.storage_mode, including nested sub-rule sections of performance); precedence yaml>json>pyproject and CLI options vs file values and per-language overrides; top-level ignore in every carrier; ten invalid values and eight unparsable-file variants; evidence counts each case class.",
+         "Held on the executions observed: 20 commands x enabled:false x carriers; one sweep per documented threshold / switch / list-valued key (66: every key of the option tables in docs/*-linter.md and docs/configuration.md except cqs, dry.filters and dry.storage_mode, including nested sub-rule sections of performance); precedence yaml>json>pyproject and CLI options vs file values and per-language overrides; top-level ignore in every carrier; ten invalid values and eight unparsable-file variants; evidence counts each case class. Round-6 additions: per-family effect of a sweep (range() / enumerate(); per language), top-level ignore for every command, alias section names, override lists, configuration files as project-root markers without .git.",
          "Trusted: the staircase project (vlib/gen/staircase.py) has constructs on both sides of each swept value; 'invalid' = rejected by the linter's own validation through .thailint.yaml (plus the documented non-positive limits).",
          "DESIGN.md section 4 C05"),
 
  "C11": ("runtime monitoring: failure tap (repository hook H1: every exception the orchestrator swallows, self-tested each run with an injected rule failure), process monitor (exit status, signals, tracebacks, faulthandler), watchdog with confirmation run, and sibling-result comparison, over mutated and blown-up inputs placed among healthy files",
-         "Held on the executions observed: 19 byte-level/grammar-aware mutators applied 1-4 in sequence to repository sources, trigger files and generated programs in py/ts/js/rs; nesting/length blow-ups of six kinds at four depths; 10^3-10^4 functions; unknown extensions; every registered rule runs on every offending file (lint_directory), CLI layer sampled over commands/formats/--parallel; evidence counts mutator classes, swallowed events and sibling comparisons.",
+         "Held on the executions observed: 19 byte-level/grammar-aware mutators applied 1-4 in sequence to repository sources, trigger files and generated programs in py/ts/js/rs; nesting/length blow-ups of six kinds at four depths; 10^3-10^4 functions; unknown extensions; every registered rule runs on every offending file (lint_directory), CLI layer sampled over commands/formats/--parallel; evidence counts mutator classes, swallowed events and sibling comparisons. Round-6 additions: damaged suppression / tool comments (unterminated rule lists, stray punctuation, thousands of items) in four languages.",
          "Trusted: hook H1 (self-tested); the repository's own test suite is run as a second workload under the tap (no scenario may end in a swallowed exception); sibling comparison excludes cross-file rules except for offenders CPython cannot parse; TypeScript DRY analysis is quadratic, so the many-functions case is capped at 300 functions for ts/js (slow is not a hang).",
          "DESIGN.md section 4 C11"),
 
  "C12": ("runtime monitoring: location contract on every reported violation at the CLI boundary (file in run, line in range, byte column in line), an icontract postcondition on the real Orchestrator.lint_file inside the running process (evaluation-counted), and a construct-on-line oracle with generator ground truth",
-         "Held on the executions observed: nesting / literal / class / Rust-call / multi-line-construct generators and the trigger project under layout variation (0-400 leading lines, CRLF, no final newline, indentation, decorators, multi-line headers and calls) for all commands; evidence counts violations inspected, constructs checked per family and contract evaluations.",
+         "Held on the executions observed: nesting / literal / class / Rust-call / multi-line-construct generators and the trigger project under layout variation (0-400 leading lines, CRLF, no final newline, indentation, decorators, multi-line headers and calls) for all commands; evidence counts violations inspected, constructs checked per family and contract evaluations. Round-6 additions: extreme float magnitudes in the literal workloads; the contract is attached to the per-file step every entry point uses.",
          "Trusted: generator facts (header lines, literal lines, call spans); the same contract (plus the ground-truth-free part of the construct-on-line oracle) also observes every lint_file call of the repository's own test suite via a pytest plugin; columns are byte offsets; syntax-error notices and file-placement are exempt.",
          "DESIGN.md section 4 C12"),
 
  "C13": ("runtime monitoring: base run vs edited run (sequence of 1-4 meaning-preserving edits) of the relevant commands; metamorphic oracle on (rule, file, mapped line, message*) multisets, columns included when the edit leaves indentation and line 1 alone",
-         "Held on the executions observed: bases with constructs on and around the configured thresholds (nesting depth == limit, class LOC == max_loc, run length == min_duplicate_lines) plus the trigger project; edits: blank/comment insertion, trailing whitespace, consistent re-indentation, LF->CRLF, add/remove BOM, appended code, renaming of filler identifiers; evidence counts comparisons per edit kind.",
+         "Held on the executions observed: bases with constructs on and around the configured thresholds (nesting depth == limit, class LOC == max_loc, run length == min_duplicate_lines) plus the trigger project; edits: blank/comment insertion, trailing whitespace, consistent re-indentation, LF->CRLF, add/remove BOM, appended code, renaming of filler identifiers; evidence counts comparisons per edit kind. Round-6 additions: comment text with quotes, comment openers and non-ASCII; appended code that reuses local names; compact brace-language layouts with inserts around dense lines; lazy-ignores bases; statements broken over several lines; shared module constants in the DRY bases.",
          "Trusted: edits are meaning-preserving on the generated files (no multi-line strings, renames touch only filler identifiers); header-sensitive linters only below line 12; DRY messages compared on occurrence count.",
          "DESIGN.md section 4 C13"),
 
  "C20": ("runtime monitoring: command histories with file bytes recorded before/after every command, exit codes and stdout; offline checkers against (a) a key-path state model of the user's .thailint.yaml for init-config merges (plus threshold decoding on the staircase probe and byte-idempotence), (b) preset files accepted by every linter command, (c) a dict model with the documented value conversion for config set/get/reset incl. independent YAML/JSON reload",
-         "Held on the executions observed: generated existing configs (section subsets, hyphen/underscore, block/flow style, comments, banner look-alikes, CRLF, no final newline, document markers) x three init-config runs with presets; four preset files x 20 commands; set/get/reset histories with valid, invalid and YAML-special values over cfg.yaml and cfg.json; evidence counts merge runs, in-effect checks, accepted/rejected sets and get checks.",
+         "Held on the executions observed: generated existing configs (section subsets, hyphen/underscore, block/flow style, comments, banner look-alikes, CRLF, no final newline, document markers) x three init-config runs with presets; four preset files x 20 commands; set/get/reset histories with valid, invalid and YAML-special values over cfg.yaml and cfg.json; evidence counts merge runs, in-effect checks, accepted/rejected sets and get checks. Round-6 additions: interactive init-config steps (answer on stdin, real console script).",
          "Trusted: yaml.safe_load / json.loads as independent parsers; Python literal syntax as the documented int/float conversion; validated keys as in src/config.py.",
          "DESIGN.md section 4 C20"),
 
  "C19": ("runtime monitoring: boundary trace of the documented command (Linter.lint for cqs) on every labelled code block re-extracted from docs/*-linter.md at run time, as is and under embeddings (unrelated code before/after, inside a function / an if block, repeated with renamed definitions); conformance + relational oracle",
-         "Held on the executions observed: all fenced python/typescript/javascript/rust blocks with a violating ('Code with violation(s)', 'Detects', 'Before' outside refactoring sections) or acceptable ('Refactored code', 'After', 'EAFP alternative', 'Fixed code') label, with the configuration the doc attaches to them; blocks that mark their parts with '# Detected ... / # Not detected ...' comments are split into examples; pattern-linter examples under about 30 embeddings (filler, function / if / for / while / class / try / with / else / except / finally / match arms / async def, renamed identifiers, import variants, TS scopes); evidence counts blocks total/judged/skipped and embeddings checked.",
+         "Held on the executions observed: all fenced python/typescript/javascript/rust blocks with a violating ('Code with violation(s)', 'Detects', 'Before' outside refactoring sections) or acceptable ('Refactored code', 'After', 'EAFP alternative', 'Fixed code') label, with the configuration the doc attaches to them; blocks that mark their parts with '# Detected ... / # Not detected ...' comments are split into examples; pattern-linter examples under about 30 embeddings (filler, function / if / for / while / class / try / with / else / except / finally / match arms / async def, renamed identifiers, import variants, TS scopes); evidence counts blocks total/judged/skipped and embeddings checked. Round-6 additions: TS / JS examples also run in the twin language's file type; blocks classified by their headings ('(No Violations)', 'Suppression Declaration Format'); embeddings in-method and the remaining compound statements.",
          "Trusted: the label classification (vlib/gen/docs.py) and the hand-reviewed exceptions in corpus/overrides.json; 'Before' blocks of refactoring sections and elided code are only used relationally; embeddings that do not parse are discarded.",
          "DESIGN.md section 4 C19"),
 }
